@@ -8,6 +8,10 @@ CHECKS = [
   "level_text": "TLC model-checks the executable TLA+ script VM / debugger-session specification (spec/ScriptVM.tla, spec/Debugger.tla) at small scope over the complete opcode alphabet, and TLC validates tens of thousands of executions recorded from the real Instance::step()/ContinueScript (rebuilt from the working tree) event by event against that specification: stack, alt stack, condition view, outcome, error label and failing operation. Model checking of the design plus conformance of the code on generated traces; not a proof about the C++.",
   "level_note": "Trusted: my transcription of Bitcoin's script rules (DESIGN.md App. A), TLC, the Java hash overrides (self-tested), the native harness projection (harness/native/vharness.cpp). C++ exceptions of the number codec are identified with UNKNOWN_ERROR. Signature opcodes are C02's.",
   "technique": "TLA+ spec + TLC model checking + TLC trace validation of native-harness executions (impl -> spec), exhaustive short scripts / operand tuples / grammar-directed long scripts / limit boundaries"},
+ {"id": "C18", "level": "model_checking",
+  "level_text": "TLC checks on every byte string of <= 2 (quick) / 3 (thorough) bytes that the TLA+ codec (spec/ScriptNum.tla over spec/BigNat.tla) is a bijection between minimal strings and integers, that non-minimal = a shorter encoding exists, and that it agrees with native integer arithmetic; TLC then validates every recorded call of the real CScriptNum constructor / serialize / Value conversions (exhaustive to 2/3 bytes, boundary products and stratified random 3-6 byte strings, integer ranges) against that codec.",
+  "level_note": "The property's own quantifier is the full 2^32 enumeration; here the implementation is covered exhaustively to 2 (3) bytes and by boundary products {00,01,7f,80,81,fe,ff}^n plus random strings beyond; a defect confined to 4-byte strings outside every boundary class and sample would be missed. Trusted: TLC, the harness's int64 -> sign/magnitude rendering.",
+  "technique": "TLA+ codec spec model-checked exhaustively on short strings + TLC validation of recorded codec calls (impl -> spec)"},
 ]
 _pending = "check not built yet in this round (construction order in DESIGN.md section 10); not claimed until its TLA+ model and conformance harness exist"
 NOT_APPLICABLE = [{"property_id": "C%02d" % i, "reason": _pending} for i in range(1, 19) if "C%02d" % i not in {c["id"] for c in CHECKS}]
